@@ -149,7 +149,31 @@ def bad (msg : String) : J := .obj [("bad_request", .str msg)]
 
 /-- `chosen` = the harness reads derived facts only where and when a `read` step says so
 (`"read": [[path, nd?, miss?], ...]`). -/
-def runSteps (chosen : Bool) (react : React) (fuel : Nat) : T → List J → Option (List J)
+def leafTyOfJ : J → Option LeafTy
+  | .str "any" => some .any
+  | j => match j.get? "int" with
+    | some (.int m) => some (.int (some m))
+    | some .null => some (.int none)
+    | _ => none
+
+/-- `"any"` | `{"int": min | null}` | `{"dict": [[key, leafTy], ...]}` | `{"obj": [class, ...]}`. -/
+def fieldTyOfJ (j : J) : Option FieldTy :=
+  match j.get? "dict", j.get? "obj" with
+  | some (.arr fs), _ => do
+    let fields ← fs.mapM (fun it => match it with
+      | .arr [k, l] => do pure ((← keyOfJ k), (← leafTyOfJ l))
+      | _ => none)
+    pure (.dict fields)
+  | _, some (.arr cs) => some (.obj (cs.filterMap fun c => match c with | .int i => some i.toNat | _ => none))
+  | _, _ => (leafTyOfJ j).map .leaf
+
+def rejToJ : Option RejErr → J
+  | none => .null
+  | some .key => .str "KeyError"
+  | some .type => .str "TypeError"
+  | some .value => .str "ValueError"
+
+def runSteps (rules : Rules) (chosen : Bool) (react : React) (fuel : Nat) : T → List J → Option (List J)
   | _, [] => some []
   | t, s :: rest =>
     match s.get? "read" with
@@ -163,33 +187,72 @@ def runSteps (chosen : Bool) (react : React) (fuel : Nat) : T → List J → Opt
         match r.2 with
         | some v => (r.1, acc.2 ++ [readToJ sp.1 v.1 v.2])
         | none => (r.1, acc.2)) (t, [])
-      let more ← runSteps chosen react fuel t' rest
+      let more ← runSteps rules chosen react fuel t' rest
       pure (.obj [("ok", .bool true), ("events", .arr []), ("reads", .arr reads), ("value", valueToJ t')] :: more)
     | none => do
       let recv ← (s.get? "recv").bind pathOfJ
       let notify := (s.getBool? "notify").getD true
       let op ← (s.get? "call").bind opOfJ
-      let out0 := step t recv notify op
+      let out0 := stepV rules t recv notify op
+      let rej := rejToJ (rejection rules t recv op)
       let out : Out := if notify && fuel > 0 then
           let r := stepR react fuel t recv op
           { tree := r.1, ok := out0.ok, events := r.2 }
         else out0
       if chosen then
-        let more ← runSteps chosen react fuel out.tree rest
+        let more ← runSteps rules chosen react fuel out.tree rest
         pure (.obj [("ok", .bool out.ok), ("events", .arr (out.events.map eventToJ)),
-                    ("reads", .arr []), ("value", valueToJ out.tree)] :: more)
+                    ("reads", .arr []), ("value", valueToJ out.tree), ("rej", rej)] :: more)
       else
         let r := readEverything out.tree
-        let more ← runSteps chosen react fuel r.1 rest
+        let more ← runSteps rules chosen react fuel r.1 rest
         pure (.obj [("ok", .bool out.ok), ("events", .arr (out.events.map eventToJ)),
                     ("reads", .arr (r.2.map fun (p, nd, ms) => readToJ p nd ms)),
-                    ("value", valueToJ out.tree)] :: more)
+                    ("value", valueToJ out.tree), ("rej", rej)] :: more)
+
+/-- Requests with a second tree (`"ext"`) and threads: steps `{"scope": "enter"|"leave", "t": n, "v": b}`,
+calls `{"t": n, "in": "ext"?, "recv", "notify", "call"}` (executed by `stepN`: the notification
+switch is the one of the calling thread), and after every call all facts of the addressed tree are read. -/
+def runForest : NState → List J → Option (List J)
+  | _, [] => some []
+  | st, s :: rest =>
+    match s.getStr? "scope" with
+    | some sc => do
+      let t := (s.getNat? "t").getD 0
+      let a ← match sc with
+        | "enter" => some (NAct.enter ((s.getBool? "v").getD true))
+        | "leave" => some NAct.leave
+        | _ => none
+      let r := stepN st (.scope t a)
+      let more ← runForest r.1 rest
+      pure (.obj [("ok", .bool true), ("events", .arr []), ("reads", .arr []), ("value", valueToJ st.tree)] :: more)
+    | none => do
+      let recv ← (s.get? "recv").bind pathOfJ
+      let w := (s.getBool? "notify").getD true
+      let op ← (s.get? "call").bind opOfJ
+      let inExt := s.getStr? "in" == some "ext"
+      let r := stepN st (.call ((s.getNat? "t").getD 0) inExt recv w op)
+      let rd := readEverything r.2.tree
+      let st' : NState := if inExt then { r.1 with ext := rd.1 } else { r.1 with tree := rd.1 }
+      let more ← runForest st' rest
+      pure (.obj [("ok", .bool r.2.ok), ("events", .arr (r.2.events.map eventToJ)),
+                  ("reads", .arr (rd.2.map fun (p, nd, ms) => readToJ p nd ms)),
+                  ("value", valueToJ r.2.tree)] :: more)
 
 def handle (j : J) : J :=
   match j.getStr? "op" with
   | some "run" =>
     match (j.get? "tree").bind treeOfJ, j.getArr? "steps" with
     | some t, some steps =>
+      match j.get? "ext" with
+      | some ej =>
+        match treeOfJ ej with
+        | some e =>
+          match runForest { stacks := fun _ => [], tree := (readEverything t).1, ext := (readEverything e).1 } steps with
+          | some outs => .obj [("steps", .arr outs)]
+          | none => bad "run: forest step"
+        | none => bad "run: ext"
+      | none =>
       -- unless it chooses its reads, the harness reads every derived fact once before the first step
       let chosen := j.getStr? "reads" == some "chosen"
       let t0 := if chosen then t else (readEverything t).1
@@ -203,7 +266,16 @@ def handle (j : J) : J :=
         | none => []
       let react : React := fun id => (reacts.find? (fun r => r.1 == id)).map (·.2)
       let fuel := (j.getNat? "fuel").getD 0
-      match runSteps chosen react fuel t0 steps with
+      let ruleList : List (Nat × Key × FieldTy) := match j.getArr? "rules" with
+        | some rs => rs.filterMap (fun it => match it with
+          | .arr [.int c, k, ty] => do pure (c.toNat, (← keyOfJ k), (← fieldTyOfJ ty))
+          | _ => none)
+        | none => []
+      let rules : Rules := fun c k =>
+        match ruleList.find? (fun r => r.1 == c && r.2.1 == k) with
+        | some r => r.2.2
+        | none => .leaf .any
+      match runSteps rules chosen react fuel t0 steps with
       | some outs => .obj [("steps", .arr outs)]
       | none => bad "run: step"
     | _, _ => bad "run"
